@@ -1,13 +1,70 @@
-(* C03 — bounded repetition and separated lists (placeholder; corollaries are added below) *)
+(* C03 — Bounded repetition and separated lists honour their bounds and options.
+   The refinement theorem of C01 covers List (literal and run-time bounds) and
+   Sep (four options); the statements below are its C03 reading. *)
 From Coq Require Import List Arith Bool.
 Import ListNotations.
-Require Import Model Spec Refine.
+Require Import Model Spec SpecFacts Refine.
 
+(* the generated code for e{..} and Sep(..) inside ANY enclosing expression
+   returns what the specification returns; an uncompleted list leaves the
+   position where it started whenever the enclosing code relies on that *)
 Theorem C03_exec_refines_peg :
   forall (g funs : list (list nat * expr)) (named : bool) (ignored : option nat)
          (t : list nat) (rx : nat -> nat -> option nat),
-    (forall (r : nat) (b : expr), nth_error g r = Some ([], b) -> wf g ignored t rx [] b) ->
-    (forall r : nat, ignored = Some r -> exists es : list expr, nth_error g r = Some ([], Skip es)) ->
-    forall n : nat, IHT g funs named ignored t rx n.
+    (forall r b, nth_error g r = Some ([], b) -> wf g ignored t rx [] b) ->
+    (forall r, ignored = Some r -> exists es, nth_error g r = Some ([], Skip es)) ->
+    forall n e sc E s, wf g ignored t rx sc e -> scope_of sc E -> sub E (locals s) ->
+      match peg g ignored t rx n E e (pos s), exec true g funs named ignored t rx n e s with
+      | Fuel, OutOfFuel => True
+      | Raise, _ => True
+      | Match v p', Done s' => status s' = true /\ result s' = v /\ pos s' = p' /\ sub E (locals s')
+      | Fails, Done s' => status s' = false /\ always e = false
+                          /\ (partial true e = false -> pos s' = pos s) /\ sub E (locals s')
+      | _, _ => False
+      end.
 Proof. exact exec_refines_peg. Qed.
 Print Assumptions C03_exec_refines_peg.
+
+(* what the specification says: never more than the upper bound, never fewer
+   than the lower bound (literal or run-time values mn, mx) *)
+Theorem C03_bounds : forall pg k e mn mx p v q,
+  bounds_conflict mn mx = false ->
+  rep_spec pg k e mn mx p [] = Match v q ->
+  exists l, v = VList l /\ mnv0 mn <= length l /\ (forall m, mx = Some m -> length l <= m).
+Proof.
+  intros pg k e mn mx p v q Hc H.
+  destruct (rep_spec_bounds pg k e mn mx p [] v q) as (l & A & B & _ & D); auto.
+  - intros m ->. cbn in Hc. apply Nat.ltb_ge in Hc. cbn. split; [exact Hc | apply Nat.le_0_l].
+  - eauto.
+Qed.
+Print Assumptions C03_bounds.
+
+(* the list stops at the first element that does not match (greedy, no skipping) *)
+Theorem C03_greedy_stop : forall pg k e mn mx p acc,
+  at_max mx (length acc) = false -> pg e p = Fails ->
+  rep_spec pg (S k) e mn mx p acc =
+    if Nat.leb (mnv0 mn) (length acc) then Match (VList (rev acc)) p else Fails.
+Proof. intros pg k e mn mx p acc H1 H2. cbn [rep_spec]. rewrite H1, H2. reflexivity. Qed.
+Print Assumptions C03_greedy_stop.
+
+(* Sep: a trailing separator is consumed iff allow_trailer: the end position is
+   the checkpoint, which moves past a separator only when trailers are allowed *)
+Theorem C03_trailer : forall pg k e sp keep trailer p acc cp saw v p1 sv p2,
+  pg e p = Match v p1 -> pg sp p1 = Match sv p2 ->
+  sep_spec pg (S k) e sp keep trailer p acc cp saw =
+  sep_spec pg k e sp keep trailer p2 (if keep then sv :: v :: acc else v :: acc) (if trailer then p2 else p1) true.
+Proof. intros. cbn [sep_spec]. rewrite H, H0. reflexivity. Qed.
+Print Assumptions C03_trailer.
+
+(* non-vacuity: a data-dependent repetition  let n = N in "a"{n}  on "2aa" *)
+Definition ex_g : list (list nat * expr) :=
+  [([], Let 1 (Ref 1) (Rep (Str [97] false) (BVar 1) (BVar 1)));
+   ([], Apply (Rx 0 false) (Py (PFn FInt)) false)].
+Definition ex_rx (id p : nat) : option nat := if Nat.eqb p 0 then Some 1 else None.
+Example C03_data_dependent_runs :
+  peg ex_g None [50; 97; 97; 97] ex_rx 10 [] (Ref 0) 0 = Match (VList [VStr [97]; VStr [97]]) 3
+  /\ (forall r b, nth_error ex_g r = Some ([], b) -> wf ex_g None [50; 97; 97; 97] ex_rx [] b).
+Proof.
+  split; [vm_compute; reflexivity|].
+  intros [|[|r]] b H; cbn in H; [| |destruct r; discriminate]; inversion H; subst; cbn; intuition.
+Qed.
